@@ -19,6 +19,7 @@ class Outcome:
         self.xobs: object = None  # the part that must be identical under another PYTHONHASHSEED (None = not compared)
         self.stats: Counter = Counter()
         self.shape: str = ""
+        self.shapes: list[str] = []  # optional: a run that evaluates several independent cases lists each case's shape
         self.nontrivial: bool = False
 
     def fail(self, oracle: str, detail: str, sig: str | None = None) -> None:
